@@ -180,13 +180,13 @@ example : plainTy (.map (.prim 25) (.union (.cons (.prim 9) (.cons (.array (.pri
 /-- For every type with `Implied t` (over the regenerated primitive set) the formatter writes
     no decorator after a (non-null, non-empty) value of `t`, and the analyzer infers exactly `t`
     from the bare syntax.  (Nulls and empty containers *inside* the value carry their own
-    decorators; error types are outside the plain fragment.) -/
+    decorators; an empty container directly inside an error value does not — `errOK`.) -/
 theorem implied_inferred (fst : FState) (a0 : AState) (t : Ty) (v : Val) (pi e : Bool)
     (hi : implied t = true) (hp : plainTy t = true) (hw : wfTy t = true) (hv : wfVal t v = true)
-    (hn : v.isNull = false) (hb : bareEmpty v = false) :
+    (hn : v.isNull = false) (hb : bareEmpty v = false) (he : errOK v = true) :
     ∃ any, fmtValue fst t v false pi true e = (fst, any, []) ∧
       convertValue a0 (.implied any) none = .ok (a0, (t, strip v)) := by
-  obtain ⟨any, ds, hf, _, hA, _⟩ := goodV_all v t e hp hw hv pi fst a0
+  obtain ⟨any, ds, hf, _, hA, _⟩ := goodV_all v t e hp hw hv he pi fst a0
   have hnu : t.isUnion = false := implied_notUnion t hi
   have hds : ds = [] := by
     have := implied_ds fst t v pi e hi hp hv hn hb
@@ -204,22 +204,26 @@ example : implied (.record (.cons [97] (.prim 9) (.cons [98] (.array (.prim 25))
      ∀ t v, wfTy t → wfVal t v → analyze (fmt t v) = ok (t, v)
      (any formatter typedef state mirrored by the analyzer name table)
 
-   Proved for the plain fragment (`plainTy`: no named types, no error types, no record field
-   of union type) and every value that is not an empty array / set / map as a whole
-   (`bareEmpty`), for every formatter state and every analyzer state — neither is changed. -/
+   Proved for the plain fragment (`plainTy`: no named types — those are covered at the top of a
+   value and over streams below —, no record field of union type; error types included) and
+   every value that is not an empty array / set / map as a whole (`bareEmpty`) or directly
+   inside an error value (`errOK`), for every formatter state and every analyzer state —
+   neither is changed. -/
 theorem zson_roundtrip_value_partial (fst : FState) (a0 : AState) (t : Ty) (v : Val)
-    (hp : plainTy t = true) (hw : wfTy t = true) (hv : wfVal t v = true) (hb : bareEmpty v = false) :
+    (hp : plainTy t = true) (hw : wfTy t = true) (hv : wfVal t v = true) (hb : bareEmpty v = false)
+    (he : errOK v = true) :
     (fmtTop fst t v).1 = fst ∧ analyzeTop a0 (fmtTop fst t v).2 = .ok (a0, (t, v)) :=
-  roundtrip_plain fst a0 t v hp hw hv hb
+  roundtrip_plain fst a0 t v hp hw hv hb he
 
 /-- `pretty_irrelevant`, per-value vs per-stream scope, `persist`: in the plain fragment what
     is read back does not depend on the formatter's typedef state (and the model has no layout
     parameter at all: pretty-printing produces no tokens), so every formatter setting
     round-trips alike. -/
 theorem zson_roundtrip_value_any_settings (fst1 fst2 : FState) (a0 : AState) (t : Ty) (v : Val)
-    (hp : plainTy t = true) (hw : wfTy t = true) (hv : wfVal t v = true) (hb : bareEmpty v = false) :
+    (hp : plainTy t = true) (hw : wfTy t = true) (hv : wfVal t v = true) (hb : bareEmpty v = false)
+    (he : errOK v = true) :
     analyzeTop a0 (fmtTop fst1 t v).2 = analyzeTop a0 (fmtTop fst2 t v).2 :=
-  fmtTop_state_irrelevant fst1 fst2 a0 t v hp hw hv hb
+  fmtTop_state_irrelevant fst1 fst2 a0 t v hp hw hv hb he
 
 -- non-vacuity: a value that exercises unions, partial population, nulls and nested decorators
 example :
@@ -227,7 +231,8 @@ example :
       (.cons [98] (.map (.prim 25) (.set (.prim 0))) (.cons [99] (.enum [[120], [121]]) .nil)))
     let v : Val := .record (.cons (.array (.cons (.union 0 (.prim [49])) (.cons .null .nil)))
       (.cons (.map (.cons (.prim [107]) (.set .nil) .nil)) (.cons (.enum 1) .nil)))
-    plainTy t = true ∧ wfTy t = true ∧ wfVal t v = true ∧ bareEmpty v = false ∧ rtOK t v = true := by
+    plainTy t = true ∧ wfTy t = true ∧ wfVal t v = true ∧ bareEmpty v = false ∧ errOK v = true ∧
+      rtOK t v = true := by
   decide
 
 /- Named types, first step (the general statement with typedef scopes is tied by correspondence
@@ -242,11 +247,12 @@ example :
 theorem zson_roundtrip_value_named_top_partial (fst : FState) (a0 : AState) (n : Name) (u : Ty) (v : Val)
     (hok : nameOK n = true) (hp : plainTy u = true) (hw : wfTy u = true)
     (hv : wfVal u v = true) (hn : v.isNull = false) (hb : bareEmpty v = false)
-    (hod : noOwnDeco u v = true) (hen : enumSyms u = none) (hfst : fst.hasName (.named n u) = false) :
+    (hod : noOwnDeco u v = true) (hen : enumSyms u = none) (he : errOK v = true)
+    (hfst : fst.hasName (.named n u) = false) :
     (fmtTop fst (.named n u) (.named v)).1 = fst.saveType n (.named n u) ∧
     analyzeTop a0 (fmtTop fst (.named n u) (.named v)).2 =
       .ok (aPush a0 n (.named n u), (.named n u, .named v)) :=
-  named_top fst a0 n u v hok hp hw hv hn hb hod hen hfst
+  named_top fst a0 n u v hok hp hw hv hn hb hod hen he hfst
 
 example :
     let u : Ty := .record (.cons [97] (.prim 8) (.cons [98] (.array (.prim 25)) .nil))
@@ -262,12 +268,12 @@ example :
     union-typed container elements (`known-name-union-elements-undecorated`). -/
 theorem zson_roundtrip_value_named_later_partial (fst : FState) (a0 : AState) (n : Name) (u : Ty) (v : Val)
     (hp : plainTy u = true) (hw : wfTy u = true) (hk : noUnionElems u = true) (hen : enumSyms u = none)
-    (hv : wfVal u v = true) (hnn : v.isNull = false)
+    (hv : wfVal u v = true) (hnn : v.isNull = false) (he : errOK v = true)
     (hname : fst.nameOf (.named n u) = some n) (hhas : fst.hasName (.named n u) = true)
     (ha : alookup n a0.names = some (.named n u)) :
     (fmtTop fst (.named n u) (.named v)).1 = fst ∧
     analyzeTop a0 (fmtTop fst (.named n u) (.named v)).2 = .ok (a0, (.named n u, .named v)) :=
-  named_later fst a0 n u v hp hw hk hen hv hnn hname hhas ha
+  named_later fst a0 n u v hp hw hk hen hv hnn he hname hhas ha
 
 /-- **streams**: a sequence of values — plain values and values of named types over plain types,
     one name bound to one type over the whole stream — written by one formatter and read by one
@@ -294,6 +300,21 @@ example :
     (∀ y ∈ items, itemOK y = true) ∧ namesConsistent items = true ∧
       analyzeStream {} (fmtStream false {} items) = .ok items ∧
       analyzeStream {} (fmtStream true { permanent := some [], persist := fun _ => true } items) = .ok items := by
+  decide
+
+-- error types are inside the proved fragment: error of a record, of a union, of an error
+example :
+    let t : Ty := .error (.record (.cons [97] (.error (.union (.cons (.prim 8) (.cons (.prim 25) .nil))))
+      (.cons [98] (.array (.prim 9)) .nil)))
+    let v : Val := .error (.record (.cons (.error (.union 0 (.prim [49]))) (.cons (.array .nil) .nil)))
+    plainTy t = true ∧ wfTy t = true ∧ wfVal t v = true ∧ bareEmpty v = false ∧ errOK v = true ∧
+      rtOK t v = true := by
+  decide
+
+/-- `error([])` of an implied error type: the empty container is written bare inside `error(…)`
+    and nothing supplies its type (the guard `errOK`). -/
+theorem not_zson_roundtrip_value_empty_container_in_error :
+    rtOK (.record (.cons [97] (.error (.array (.prim 9))) .nil)) (.record (.cons (.error (.array .nil)) .nil)) = false := by
   decide
 
 /-- an empty container as a whole value is written `[]` with no decorator and read back as an
